@@ -8,6 +8,8 @@ All theorems quantify over *every* schedule (any interleaving of callers, writer
 queue size, and every remote behaviour (healthy, gated = slow / blocked for ever, failing at write k).
 -/
 import AnySyncModel.StreamPool.Isolation
+import AnySyncModel.StreamPool.MacroMicro
+import AnySyncModel.StreamPool.Commute
 
 namespace AnySync.StreamPool
 
@@ -221,6 +223,74 @@ theorem fifo_per_stream_macro (w q : Nat) (σ : List MStep) :
 
 theorem indexes_consistent_macro (w q : Nat) (σ : List MStep) : IdxInv (mrun (init w q) σ) :=
   (IdxInv.init w q).mrun σ
+
+/-! ## a macro step is its snapshot followed by its single writes -/
+
+/-- **macro = micro.** In every reachable state, for every `Broadcast` call: the macro step yields the
+same state as the snapshot step followed by `k` single `callWrite` steps of that call (in list order,
+no other step interleaved). The only difference is the call-id counter, which the macro step does not
+advance (`withBook` restores the pending calls, the counter and the flag of the reachable state). -/
+theorem macro_eq_micro (w q : Nat) (steps : List Step) (m : Nat) (tags : List Nat) :
+    let p := run (init w q) steps
+    ∃ k, run p (.snapBroadcast m tags :: List.replicate k (.callWrite p.nextCall)) =
+      (mstep p (.broadcast m tags)).withBook p.calls (p.nextCall + 1) p.nilDeref := by
+  intro p
+  have hi : IdxInv p := (IdxInv.init w q).run steps
+  have hf : CallsFresh p := (CallsFresh.init w q).run steps
+  obtain ⟨k, hk⟩ := macro_eq_micro_broadcast_any p hf m tags
+  refine ⟨k, ?_⟩
+  rw [hk, hi.missing_false _ (by
+    intro id hid; rw [flatten_map_singleton] at hid; exact hi.broadcastIds_mem tags id hid), Bool.or_false]
+
+/-- the same for `SendById`, together with the caller-visible result (`ErrUnableToConnect` or nil) -/
+theorem macro_eq_micro_sendById (w q : Nat) (steps : List Step) (m : Nat) (peers : List Nat) :
+    let p := run (init w q) steps
+    (∃ k, run p (.snapSendById m peers :: List.replicate k (.callWrite p.nextCall)) =
+      (mstep p (.sendById m peers)).withBook p.calls (p.nextCall + 1) p.nilDeref) ∧
+    (step p (.snapSendById m peers)).2 = (p.sendByIdNow m peers).2 := by
+  intro p
+  have hi : IdxInv p := (IdxInv.init w q).run steps
+  have hf : CallsFresh p := (CallsFresh.init w q).run steps
+  obtain ⟨⟨k, hk⟩, hres⟩ := macro_eq_micro_sendById_any p hf m peers
+  refine ⟨⟨k, ?_⟩, hres⟩
+  rw [hk, hi.missing_false _ (hi.sendByIdGroups_mem peers), Bool.or_false]
+
+/-- call ids are fresh in every reachable state (what makes "the call just snapshotted" unambiguous) -/
+theorem calls_fresh (w q : Nat) (steps : List Step) : CallsFresh (run (init w q) steps) :=
+  (CallsFresh.init w q).run steps
+
+example : (run (init 1 1) [.add 0 1 true 0 [0], .add 1 2 false 0 [0], .snapBroadcast 7 [0], .callWrite 0,
+      .callWrite 0]).objs.map (·.accepted) =
+    (mstep (run (init 1 1) [.add 0 1 true 0 [0], .add 1 2 false 0 [0]]) (.broadcast 7 [0])).objs.map (·.accepted) := by
+  decide
+
+/-! ## from macro schedules to fine-grained interleavings (partial)
+
+`queue_bounded`, `fifo_per_stream`, `indexes_consistent`, `closed_stream_untargeted` are proved directly
+for every fine-grained schedule, so they need no transfer. For the isolation statement the transfer is
+partial: `transfer_partial` shows that a pending single write of a call commutes with every step that
+only touches another stream object (all writer / remote / close steps: `take`, `complete`, `ctxClose`,
+`writerExit`, `closeRemote`, `readClose`, `cancel`, `setGated`, `setCloseBlocks`), so such steps can
+be moved out from between a call's writes without changing any stream object, pending call or index.
+Exact gap: commutation with the *index-changing* steps of other streams (`add`, `addTags`,
+`removeTags*`, `poolRemove` — true because a snapshotted call never reads an index again, not yet
+proved), with another call's `callWrite` on a different target, and with a step on the *same* target
+stream (does not commute in general: the order of two writes to one stream is observable — that case
+must stay, it is what FIFO is about); and the induction that bubbles a call's writes together. -/
+
+theorem transfer_partial (p : Pool) (cid : Nat) (c : Call) (x y : Nat) (f : Stream → Stream) (st : Step)
+    (hfind : p.calls.find? (fun c => c.id = cid) = some c) (hx : nextTarget c.groups = some x)
+    (hst : st.objFn = some (y, f)) (hxy : y ≠ x) :
+    (∀ z, getObj (step (p.callWrite cid).1 st).1.objs z = getObj ((step p st).1.callWrite cid).1.objs z) ∧
+    (step (p.callWrite cid).1 st).1.calls = ((step p st).1.callWrite cid).1.calls ∧
+    (step (p.callWrite cid).1 st).1.streams = ((step p st).1.callWrite cid).1.streams ∧
+    (step (p.callWrite cid).1 st).1.byPeer = ((step p st).1.callWrite cid).1.byPeer ∧
+    (step (p.callWrite cid).1 st).1.byTag = ((step p st).1.callWrite cid).1.byTag ∧
+    (step (p.callWrite cid).1 st).1.lastId = ((step p st).1.callWrite cid).1.lastId :=
+  callWrite_commutes_foreign p cid c x y f st hfind hx hst hxy
+
+example : (Step.take 3).objFn.map (·.1) = some 3 ∧ (Step.closeRemote 2).objFn.map (·.1) = some 2 := by
+  constructor <;> rfl
 
 /-! ## closing the remote is never done under the pool lock
 
